@@ -682,7 +682,12 @@ impl Runner {
 }
 
 pub fn run_scenario(sc: &Sx) -> String {
-    let (_, a) = sc.app();
+    let (h, a) = sc.app();
+    if h == "multi" {
+        // several scenarios judged together (C17): each runs in its own App
+        let ts: Vec<String> = a[0].list().iter().map(run_scenario).collect();
+        return format!("(mtrace [{}])", ts.join(" "));
+    }
     let mut r = Runner::new(sc);
     let mut outs = vec![];
     for st in a[3].list() {
